@@ -4,21 +4,24 @@ From QV Require Import Common.Prelude Engine.Model Engine.Core Engine.CoreSpec E
   Engine.FwMono Engine.MdlBase Engine.MdlInvExec Engine.MdlInvClean.
 Open Scope Z_scope.
 
-Definition Wd (s s' : state) : Prop := s_world s' = s_world s.
+(** ... and it keeps the list of the external inputs computed so far duplicate-free *)
+Definition Wd (s s' : state) : Prop := s_world s' = s_world s /\ (NoDup (s_ext s) -> NoDup (s_ext s')).
 Lemma Wd_refl : forall s, Wd s s.
-Proof. intro s. reflexivity. Qed.
+Proof. intro s. split; auto. Qed.
 Lemma Wd_trans : forall s s1 s2, Wd s s1 -> Wd s1 s2 -> Wd s s2.
-Proof. intros s s1 s2 A B. unfold Wd in *. congruence. Qed.
+Proof. intros s s1 s2 [A1 A2] [B1 B2]. split; [congruence|auto]. Qed.
+Lemma Wd_same : forall s s', s_world s' = s_world s -> s_ext s' = s_ext s -> Wd s s'.
+Proof. intros s s' A B. split; [exact A|rewrite B; auto]. Qed.
 
 Section World.
 Variable p : program.
-Variables tord bord : state -> node -> list node -> list node.
+Variables tord bord pord : state -> node -> list node -> list node.
 
-Notation mquery := (query_for_o p None tord bord).
-Notation mexecute := (execute_o p None tord bord).
-Notation meval := (eval_o p None tord bord).
-Notation mrepair := (repair_o p None tord bord).
-Notation mbackward := (backward_o p None tord bord).
+Notation mquery := (query_for_o p None tord bord pord).
+Notation mexecute := (execute_o p None tord bord pord).
+Notation meval := (eval_o p None tord bord pord).
+Notation mrepair := (repair_o p None tord bord pord).
+Notation mbackward := (backward_o p None tord bord pord).
 
 Definition mworld_query (f : nat) : Prop :=
   forall stk c fr n s o fr' m' s', mquery f stk c fr n s = Ok (o, fr', m', s') -> Wd s s'.
@@ -34,7 +37,7 @@ Definition mworld_backward (f : nat) : Prop :=
   forall stk n s s', mbackward f stk n s = Ok s' -> Wd s s'.
 
 Lemma mworld_tfc : forall f stk, mworld_query f ->
-  forall ts s s', mtfc p tord bord f stk ts s = Ok s' -> Wd s s'.
+  forall ts s s', mtfc p tord bord pord f stk ts s = Ok s' -> Wd s s'.
 Proof.
   intros f stk IHq. induction ts as [|t r IH]; intros s s' H; cbn [mtfc] in H.
   - inversion H. subst. apply Wd_refl.
@@ -42,7 +45,7 @@ Proof.
     apply IHq in Eq. eapply Wd_trans; [exact Eq|]. apply IH. exact H.
 Qed.
 Lemma mworld_bp : forall f stk, mworld_query f ->
-  forall ts s s', mbp p tord bord f stk ts s = Ok s' -> Wd s s'.
+  forall ts s s', mbp p tord bord pord f stk ts s = Ok s' -> Wd s s'.
 Proof.
   intros f stk IHq. induction ts as [|t r IH]; intros s s' H; cbn [mbp] in H.
   - inversion H. subst. apply Wd_refl.
@@ -52,7 +55,7 @@ Qed.
 
 Lemma mworld_walk : forall f n stk pd i, mworld_query f ->
   forall cs rtfc cleaned fr ms s d fr' ms' s1,
-    mwalk p tord bord f n stk pd i cs rtfc cleaned fr ms s = Ok (d, fr', ms', s1) -> Wd s s1.
+    mwalk p tord bord pord f n stk pd i cs rtfc cleaned fr ms s = Ok (d, fr', ms', s1) -> Wd s s1.
 Proof.
   intros f n stk pd i IHq. induction cs as [|cal r IH]; intros rtfc cleaned fr ms s d fr' ms' s1 H; cbn [mwalk] in H.
   - inversion H. subst. apply Wd_refl.
@@ -65,8 +68,8 @@ Proof.
         destruct (negb (i_value ci =? ov)).
         -- inversion H. subst. apply Wd_refl.
         -- eapply IH. exact H.
-      * match type of H with context [query_for_o p None tord bord f ?a ?b ?c ?d ?e] =>
-          destruct (query_for_o p None tord bord f a b c d e) as [[[[o fr1] m1] s']| | |] eqn:Eq; try discriminate end.
+      * match type of H with context [query_for_o p None tord bord pord f ?a ?b ?c ?d ?e] =>
+          destruct (query_for_o p None tord bord pord f a b c d e) as [[[[o fr1] m1] s']| | |] eqn:Eq; try discriminate end.
         apply IHq in Eq.
         destruct (get_info s' cal) as [ci|]; [|discriminate].
         destruct (negb (i_value ci =? ov)).
@@ -89,12 +92,12 @@ Proof.
       destruct (fast_path s c' fr1 n) as [[v|sp] fr2] eqn:Ef.
       { inversion H. subst. apply Wd_refl. }
       pose proof (fast_path_slow _ _ _ _ _ _ Ef) as Hsp.
-      destruct (mq_tfc p tord bord f stk c' sp n s) as [s1| | |] eqn:Et; try discriminate.
+      destruct (mq_tfc p tord bord pord f stk c' sp n s) as [s1| | |] eqn:Et; try discriminate.
       assert (M1 : Wd s s1).
       { unfold mq_tfc in Et. destruct c'; destruct sp; try (inversion Et; subst; apply Wd_refl);
           (destruct (get_info s n); [|inversion Et; subst; apply Wd_refl]);
           eapply mworld_tfc; eauto. }
-      destruct (mq_process p tord bord f stk c' sp n s1) as [[marks s2]| | |] eqn:Ep; try discriminate.
+      destruct (mq_process p tord bord pord f stk c' sp n s1) as [[marks s2]| | |] eqn:Ep; try discriminate.
       assert (M2 : Wd s1 s2).
       { assert (Hgen : match get_info s1 n with
                        | Some i => if (i_verified i =? s_ts s1)%N then Ok ([], s1) else mrepair f stk c' n s1
@@ -123,15 +126,17 @@ Proof.
         inversion Ee. subst. apply Wd_refl. }
       match type of H with context [if ?b then ?X else ?Y] =>
         destruct (if b then X else Y) as [s2| | |] eqn:Epr; try discriminate end.
-      inversion H. subst. unfold Wd. rewrite set_computed_world.
-      assert (K : s_world s2 = s_world s1).
+      inversion H. subst.
+      assert (K : s_world s2 = s_world s1 /\ s_ext s2 = s_ext s1).
       { repeat match type of Epr with (if ?b then _ else _) = _ => destruct b end;
-          try (apply propagate_we in Epr; tauto); try (apply propagate_t_we in Epr; tauto).
+          try (apply propagate_o_we in Epr; tauto); try (apply propagate_t_o_we in Epr; tauto).
         inversion Epr. auto. }
-      rewrite K. exact M1. }
+      destruct K as [K1 K2]. destruct M1 as [M1 M2]. split.
+      - rewrite set_computed_world, K1. exact M1.
+      - intro Hnd. apply set_computed_ext_NoDup. rewrite K2. apply M2. exact Hnd. }
     assert (He : mworld_eval (S f)).
     { assert (Hbin : forall stk me a b op fr s o fr' m' s',
-                mbin p tord bord f stk me a b op fr s = Ok (o, fr', m', s') -> Wd s s').
+                mbin p tord bord pord f stk me a b op fr s = Ok (o, fr', m', s') -> Wd s s').
       { intros stk me a b op fr s o fr' m' s' H. unfold mbin in H.
         destruct (meval f stk me a fr s) as [[[[x fr1] m1] s1]| | |] eqn:E1; try discriminate.
         apply IHe in E1. destruct x.
@@ -139,20 +144,20 @@ Proof.
           apply IHe in E2. destruct y; inversion H; subst; eapply Wd_trans; eauto.
         - inversion H. subst. exact E1. }
       assert (Hread : forall stk me n fr s o fr' m' s',
-                mread p tord bord f stk me n fr s = Ok (o, fr', m', s') -> Wd s s').
+                mread p tord bord pord f stk me n fr s = Ok (o, fr', m', s') -> Wd s s').
       { intros stk me n fr s o fr' m' s' H. unfold mread in H.
         destruct (mquery f stk me (Some fr) n s) as [[[[o1 fr1] m1] s1]| | |] eqn:E1; try discriminate.
         apply IHq in E1. destruct o1 as [[z|]|]; inversion H; subst; exact E1. }
       assert (Hgrp : forall stk me ns acc fr ms s o fr' m' s',
-                mgroup p tord bord f stk me ns acc fr ms s = Ok (o, fr', m', s') -> Wd s s').
+                mgroup p tord bord pord f stk me ns acc fr ms s = Ok (o, fr', m', s') -> Wd s s').
       { intros stk me. induction ns as [|n r IHn]; intros acc fr ms s o fr' m' s' H; cbn [mgroup] in H.
         - inversion H. subst. apply Wd_refl.
-        - destruct (mread p tord bord f stk me n fr s) as [[[[x fr1] m1] s1]| | |] eqn:E1; try discriminate.
+        - destruct (mread p tord bord pord f stk me n fr s) as [[[[x fr1] m1] s1]| | |] eqn:E1; try discriminate.
           apply Hread in E1. destruct x.
           + eapply Wd_trans; [exact E1|]. eapply IHn; eauto.
           + inversion H. subst. exact E1. }
       red. intros stk me e fr s o fr' m' s' H.
-      rewrite (eval_S p tord bord f stk me e fr s) in H. destruct e.
+      rewrite (eval_S p tord bord pord f stk me e fr s) in H. destruct e.
       + inversion H. subst. apply Wd_refl.
       + eapply Hread; eauto.
       + eapply Hbin; eauto.
@@ -162,29 +167,29 @@ Proof.
       + eapply Hbin; eauto.
       + destruct (meval f stk me e1 fr s) as [[[[x fr1] m1] s1]| | |] eqn:E1; try discriminate.
         apply IHe in E1. destruct x.
-        * match type of H with context [eval_o p None tord bord f ?a ?b ?c ?d ?e] =>
-            destruct (eval_o p None tord bord f a b c d e) as [[[[y fr2] m2] s2]| | |] eqn:E2; try discriminate end.
+        * match type of H with context [eval_o p None tord bord pord f ?a ?b ?c ?d ?e] =>
+            destruct (eval_o p None tord bord pord f a b c d e) as [[[[y fr2] m2] s2]| | |] eqn:E2; try discriminate end.
           apply IHe in E2. inversion H. subst. eapply Wd_trans; eauto.
         * inversion H. subst. exact E1.
-      + destruct (mgroup p tord bord f stk me ns 0 (fr_set_unordered fr true) [] s) as [[[[x fr1] m1] s1]| | |] eqn:E1; try discriminate.
+      + destruct (mgroup p tord bord pord f stk me ns 0 (fr_set_unordered fr true) [] s) as [[[[x fr1] m1] s1]| | |] eqn:E1; try discriminate.
         inversion H. subst. eapply Hgrp; eauto. }
     assert (Hr : mworld_repair (S f)).
     { red. intros stk c n s m' s' H. rewrite repair_S in H.
       destruct (get_info s n) as [i|] eqn:Eg; [|discriminate]. cbv zeta in H.
-      destruct (mwalk p tord bord f n stk (x_pedantic c) i (all_callees (i_fwd i)) false [] empty_frame [] s)
+      destruct (mwalk p tord bord pord f n stk (x_pedantic c) i (all_callees (i_fwd i)) false [] empty_frame [] s)
         as [[[[d fr1] marks] s1]| | |] eqn:Ew; try discriminate.
       apply (mworld_walk _ _ _ _ _ IHq) in Ew.
       destruct d as [|[|] cl].
-      - match type of H with context [execute_o p None tord bord f ?a ?b ?c ?d ?e ?g] =>
-          destruct (execute_o p None tord bord f a b c d e g) as [[m2 s2]| | |] eqn:Ex; try discriminate end.
+      - match type of H with context [execute_o p None tord bord pord f ?a ?b ?c ?d ?e ?g] =>
+          destruct (execute_o p None tord bord pord f a b c d e g) as [[m2 s2]| | |] eqn:Ex; try discriminate end.
         inversion H. subst. eapply Wd_trans; [exact Ew|]. eapply IHx; eauto.
-      - inversion H. subst. eapply Wd_trans; [exact Ew|]. unfold Wd. apply clean_query_world.
-      - inversion H. subst. eapply Wd_trans; [exact Ew|]. unfold Wd. apply clean_query_world. }
+      - inversion H. subst. eapply Wd_trans; [exact Ew|]. apply Wd_same; [apply clean_query_world|apply clean_query_ext].
+      - inversion H. subst. eapply Wd_trans; [exact Ew|]. apply Wd_same; [apply clean_query_world|apply clean_query_ext]. }
     assert (Hb : mworld_backward (S f)).
     { red. intros stk n s s' H. rewrite backward_S in H. cbv zeta in H.
-      destruct (mbp p tord bord f stk (bord s n (proj_callers s n)) s) as [s1| | |] eqn:Eb; try discriminate.
+      destruct (mbp p tord bord pord f stk (bord s n (proj_callers s n)) s) as [s1| | |] eqn:Eb; try discriminate.
       inversion H. subst. pose proof (mworld_bp _ _ IHq _ _ _ Eb) as M1.
-      eapply Wd_trans; [exact M1|]. unfold Wd, clear_pending. destruct (get_info s1 n); reflexivity. }
+      eapply Wd_trans; [exact M1|]. unfold clear_pending. destruct (get_info s1 n); apply Wd_same; reflexivity. }
     auto.
 Qed.
 End World.
